@@ -35,7 +35,9 @@ impl BigInt
 
     pub fn from_bytes_be(bytes: &[u8]) -> BigInt
     {
-        let bigint = num_bigint::BigInt::from_signed_bytes_be(&bytes);
+        let bigint = num_bigint::BigInt::from_bytes_be(
+            num_bigint::Sign::Plus,
+            &bytes);
         BigInt {
             bigint,
             size: Some(bytes.len() * 8),
